@@ -57,3 +57,62 @@ Definition frag0 (fb : flat) : bool :=
   single_plain_crossing fb && no_rejecting_constraints fb && no_exclusions fb && all_active fb
   && all_basic fb && unit_weights fb && plain_geometry fb && size_matches fb && nonempty_levels fb.
 
+(** * F1: F0 widened by exclusions of levels of the (non-derived) factors and by
+    the user constraints that RandomGen enforces by rejection.
+
+    - crossed factors: the excluded combinations are filtered out of the crossing
+      ([fl_sizes] is the number of remaining combinations);
+    - free factors: excluded levels are filtered out of the level lists that
+      counting and decoding use;
+    - AtMostKInARow / AtLeastKInARow / ExactlyK / ExactlyKInARow / Pin /
+      Sequential on levels of the design's factors, with a window geometry the
+      layout model understands and sustain 1: checked by the rejection test. *)
+Definition geom_ok (fb : flat) (wb : option geometry) : bool :=
+  match map_block_trial_ranges fb wb with Some _ => true | None => false end.
+
+Definition constraint_f1 (fb : flat) (k : fconstraint) : bool :=
+  let n := length (fl_design fb) in
+  match k with
+  | FCross | FConsistency | FMinimumTrials _ | FDerivation _ _ _ => true
+  | FExclude f l => (f <? n) && (l <? nlevels fb f)
+  | FAtMost _ f l wb | FAtLeast _ f l wb | FExactlyK _ f l wb | FExactlyKInARow _ f l wb =>
+    (f <? n) && (l <? nlevels fb f) && geom_ok fb wb
+  | FPin _ f l wb => (f <? n) && (l <? nlevels fb f) && geom_ok fb wb && (geometry_sustain fb wb f =? 1)
+  | FSequential f => (f <? n) && (0 <? nlevels fb f)
+  | _ => false
+  end.
+
+Fixpoint pairs_eqb (a b : list (nat * nat)) : bool :=
+  match a, b with
+  | [], [] => true
+  | (x1, x2) :: a', (y1, y2) :: b' => (x1 =? y1) && (x2 =? y2) && pairs_eqb a' b'
+  | _, _ => false
+  end.
+(** [block.exclude] is what the [Exclude] constraints of the block list, in order *)
+Definition exclude_consistent (fb : flat) : bool :=
+  pairs_eqb (fl_exclude fb)
+            (flat_map (fun k => match k with FExclude f l => [(f, l)] | _ => [] end) (fl_constraints fb))
+  && match fl_excluded_derived fb with [] => true | _ => false end.
+
+Definition allowed_combos (fb : flat) (c : list nat) : list (list nat) :=
+  filter (fun ls => negb (is_excluded_combination fb (combine c ls))) (product (map (all_levels fb) c)).
+
+Definition size_matches1 (fb : flat) : bool :=
+  match fl_crossings fb, fl_sizes fb with
+  | [c], [s] => (s =? length (allowed_combos fb c)) && (0 <? s)
+  | _, _ => false
+  end.
+Definition free_levels_nonempty (fb : flat) : bool :=
+  forallb (fun f => 0 <? length (nonexcluded_levels fb f)) (seq 0 (length (fl_design fb))).
+
+Definition frag1 (fb : flat) : bool :=
+  single_plain_crossing fb && forallb (constraint_f1 fb) (fl_constraints fb) && exclude_consistent fb
+  && all_active fb && all_basic fb && unit_weights fb && plain_geometry fb && size_matches1 fb
+  && free_levels_nonempty fb && ((0 <? fl_trials fb) || no_rejecting_constraints fb).
+
+(** the part of F1 in which no candidate is ever rejected *)
+Definition rejection_free (fb : flat) : bool :=
+  forallb (fun k => match k with
+                    | FCross | FConsistency | FMinimumTrials _ | FDerivation _ _ _ | FExclude _ _ => true
+                    | _ => false
+                    end) (fl_constraints fb).
